@@ -176,10 +176,12 @@ class kMinPathErrorCycles(walkmodel.AbstractWalkModelDiGraph):
                 raise ValueError(f"you cannot set elements_to_ignore when elements_to_ignore_percentile is set.")
 
             # Select edges where the flow_attr value is >= elements_to_ignore_percentile (using self.G)
-            flow_values = [self.G.edges[edge][flow_attr] for edge in self.G.edges() if flow_attr in self.G.edges[edge]]
+            # (the edges that are ignored anyway, e.g. the original edges of a node-expanded graph, which may carry an attribute
+            # of the same name, take no part in the percentile and stay ignored)
+            already_ignored = set(edges_to_ignore_internal)
+            flow_values = [self.G.edges[edge][flow_attr] for edge in self.G.edges() if flow_attr in self.G.edges[edge] and edge not in already_ignored]
             percentile = np.percentile(flow_values, elements_to_ignore_percentile) if flow_values else 0
-            # (in addition to the edges that are ignored anyway, e.g. the original edges of a node-expanded graph)
-            edges_to_ignore_internal = list(edges_to_ignore_internal) + [edge for edge in self.G.edges() if flow_attr in self.G.edges[edge] and self.G.edges[edge][flow_attr] < percentile]
+            edges_to_ignore_internal = list(edges_to_ignore_internal) + [edge for edge in self.G.edges() if edge not in already_ignored and flow_attr in self.G.edges[edge] and self.G.edges[edge][flow_attr] < percentile]
 
         utils.logger.debug(f"{__name__}: edges_to_ignore_internal set to {edges_to_ignore_internal}")
 
